@@ -18,8 +18,9 @@ charged somewhere):
   plugin.go          Reserve / Unreserve
   core/group_quota_manager.go  OnPodAdd (incl. the fail-over branch: NodeName set and not terminated => assigned
                      + used), OnPodUpdate (all branches), OnPodDelete, ReservePod, UnreservePod, MigratePod
-  core/quota_info.go addPodIfNotPresent (the FIRST object seen is cached and never refreshed),
-                     UpdatePodIsAssigned, SelfRequest / SelfUsed clamped at 0
+  core/quota_info.go addPodIfNotPresent, refreshPodIfPresent (fix 7265fb2: the cached object follows the updates that
+                     are routed to the quota that holds the pod), getCachedPod, UpdatePodIsAssigned,
+                     SelfRequest / SelfUsed clamped at 0
 
 Names: 0 = no label, 1 = koordinator-default-quota, 2 = koordinator-system-quota, >= 3 quotas of the case.
 A namespace token n is the namespace whose name is the name of quota n.  Amounts: cpu milli (the harness
@@ -27,8 +28,9 @@ requests memory = 1024 * cpu, every quota declares cpu and memory, so the mask b
 the identity; the hierarchical figures are C01's subject and compared here by the Go oracle only).
 
 Quirks kept as written:
-  * the pod cache of a QuotaInfo keeps the first object it saw; migrateDefaultQuotaGroupsPod resolves the
-    quota from THAT object and MigratePod moves ITS request.
+  * the pod cache of a QuotaInfo keeps the object of the last update that was routed to it (the first object it saw
+    before fix 7265fb2); migrateDefaultQuotaGroupsPod resolves the quota from THAT object and MigratePod moves ITS
+    request; OnPodDelete gives back ITS request.
   * MigratePod subtracts the request from `out` whether or not `out` caches the pod; since fix 5a63beb it
     returns after that when `in` already caches the pod (the assigned flag of `out` is then NOT carried over).
   * OnPodDelete resolves the quota NOW; since fix 931f7a3 the default group is cleared as well.
@@ -110,6 +112,15 @@ def delE (s : St) (q pid : Nat) : St :=
 def setAsg (s : St) (q pid : Nat) (b : Bool) : St :=
   { s with cache := s.cache.map (fun e => if e.q == q && e.pid == pid then { e with assigned := b } else e) }
 
+/-- quota_info.go refreshPodIfPresent (fix 7265fb2): the cached object of a pod the quota holds is replaced, the
+    assigned flag is untouched -/
+def refreshE (s : St) (q : Nat) (p : PodObj) : St :=
+  { s with cache := s.cache.map (fun e => if e.q == q && e.pid == p.id then { e with obj := p } else e) }
+
+/-- quota_info.go getCachedPod -/
+def cachedObj (s : St) (q pid : Nat) : Option PodObj :=
+  (s.cache.find? (fun e => e.q == q && e.pid == pid)).map (·.obj)
+
 def reqD (s : St) (q : Nat) (d : Int) : St := if d = 0 then s else { s with req := bumpC s.req q d }
 def usedD (s : St) (q : Nat) (d : Int) : St := if d = 0 then s else { s with used := bumpC s.used q d }
 
@@ -126,8 +137,10 @@ def mgrPodUpdate (s : St) (nq oq : Nat) (new old : PodObj) : St :=
   if oq = nq then
     if !s.known.contains nq then s else
     let s := if hasE s nq new.id then reqD s nq (new.req - old.req) else reqD (addE s nq new) nq new.req
-    if isAssigned s nq new.id then usedD s nq (new.req - old.req)
-    else if bound new then usedD (setAsg s nq new.id true) nq new.req else s
+    let s :=
+      if isAssigned s nq new.id then usedD s nq (new.req - old.req)
+      else if bound new then usedD (setAsg s nq new.id true) nq new.req else s
+    refreshE s nq new
   else
     let s :=
       if s.known.contains oq && hasE s oq old.id then
@@ -142,6 +155,8 @@ def mgrPodUpdate (s : St) (nq oq : Nat) (new old : PodObj) : St :=
 /-- core OnPodDelete -/
 def mgrPodDelete (s : St) (q : Nat) (p : PodObj) : St :=
   if !s.known.contains q || !hasE s q p.id then s else
+  -- fix 7265fb2: the quota gives back the amounts of the object it CACHES, not of the delivered one
+  let p := (cachedObj s q p.id).getD p
   let s := reqD s q (- p.req)
   let s := if isAssigned s q p.id then usedD s q (- p.req) else s
   delE s q p.id
